@@ -282,9 +282,16 @@ fn short_file(f: &str) -> String {
 }
 
 pub fn normalise_msg(m: &str) -> String {
+    // keep the stable head of the message: cut at the first structured payload
+    let mut m = m;
+    for cut in ["\n", "  left", " {", ": \"", ": '"] {
+        if let Some(i) = m.find(cut) {
+            m = &m[..i];
+        }
+    }
     let mut out = String::new();
     let mut in_num = false;
-    for c in m.chars().take(160) {
+    for c in m.chars().take(90) {
         if c.is_ascii_digit() {
             if !in_num {
                 out.push('#');
